@@ -62,9 +62,11 @@ var guardTable = []guardRow{
 	{"fixtures/fx.guarded", "fixtures/fx.guarded.mu", []string{"inner"}, true, false},
 	{"fixtures/fx.rwGuarded", "fixtures/fx.rwGuarded.mu", []string{"v", "items"}, false, false},
 	{"fixtures/fx.GoodB", "fixtures/fx.GoodB.mu", []string{"keep"}, false, false},
-	{"fixtures/fx.GoodE1", "fixtures/fx.GoodE1.mu", []string{"log", "recent", "next"}, false, false},
+	{"fixtures/fx.GoodEcont", "fixtures/fx.GoodEcont.mu", []string{"log", "recent", "next"}, false, false},
 	{"fixtures/fx.batcher", "fixtures/fx.batcher.mu", []string{"batch"}, false, false},
 	{"fixtures/fx.fxEstimator", "fixtures/fx.fxEstimator.mu", []string{"rate"}, false, false},
+	{"fixtures/fx.p1Stream", "fixtures/fx.p1Stream.mu", []string{"packets", "octets"}, false, false},
+	{"fixtures/fx.GoodQ", "fixtures/fx.GoodQ.mu", []string{"q"}, true, false},
 	{"fixtures/fx.BadBShallow", "fixtures/fx.BadBShallow.mu", []string{"keep"}, false, false},
 	{"fixtures/fx.rmw", "fixtures/fx.rmw.mu", []string{"total"}, false, false},
 	{"fixtures/fx.rmw", "fixtures/fx.rmw.mu", []string{"stats"}, true, false},
@@ -1054,6 +1056,9 @@ func (la *lockAnalysis) acquiresOf(f *ssa.Function, seen map[*ssa.Function]bool)
 			}
 			return
 		}
+		if ci.Common().IsInvoke() && isChainIface(la.p, ci.Common().Value.Type()) {
+			return // the downstream writer / upstream reader is another object; holding a private lock across it is noted, not armed (DESIGN §3 C5)
+		}
 		for _, c := range la.p.Callees(ci) {
 			if !la.p.InUniverse(c) {
 				continue
@@ -1109,6 +1114,9 @@ func runC5(p *Prog, o *obls, la *lockAnalysis) {
 				return
 			}
 			if len(held) == 0 {
+				return
+			}
+			if ci.Common().IsInvoke() && isChainIface(p, ci.Common().Value.Type()) {
 				return
 			}
 			for _, c := range p.Callees(ci) {
